@@ -6,7 +6,7 @@ use num_complex::Complex64;
 use qvh::gatewire::*;
 use qvh::*;
 use quil_rs::expression::Expression;
-use quil_rs::instruction::{Gate, Instruction, Qubit, QubitPlaceholder};
+use quil_rs::instruction::{Gate, GateModifier, Instruction, Qubit, QubitPlaceholder};
 use quil_rs::Program;
 use quil_rs::verif_hooks;
 
@@ -34,12 +34,7 @@ fn progu_case(ctx: &mut Ctx, instrs: Vec<Instruction>, n: u64) {
         for i in instrs {
             p.add_instruction(i);
         }
-        match p.to_unitary(n) {
-            Ok(m) => tagged("ok", vec![mat_to_sexp(&m)]),
-            Err(quil_rs::program::ProgramError::UnsupportedForUnitary(_)) => tagged("err", vec![atom("unsupported")]),
-            Err(quil_rs::program::ProgramError::GateError(e)) => tagged("err", vec![atom(format!("gate-{}", gate_error_kind(&e)))]),
-            Err(_) => tagged("err", vec![atom("other")]),
-        }
+        program_unitary_result(p.to_unitary(n))
     });
 }
 
@@ -97,6 +92,12 @@ fn run(ctx: &mut Ctx) {
     gate_case(ctx, "X", vec![], vec![], 1); // Gate::new would reject; the struct literal does not
     // exact multiples of 2π: RX/RY/RZ have period 4π, so these are −I (a seeded "identity fast path" in
     // Program::to_unitary skipping `x.re % TAU == 0.0` gates was missed before these were added)
+    // a standard gate right after a modified gate whose consumed form equals it (a seeded "same gate in a row" memo in
+    // Program::to_unitary that remembered the gate AFTER to_unitary stripped it was missed before stream 7)
+    progu_case(ctx, vec![Instruction::Gate(Gate { name: "S".into(), parameters: vec![], qubits: fixed(&[0]), modifiers: vec![GateModifier::Dagger] }), plain("S", vec![], &[0])], 1);
+    progu_case(ctx, vec![Instruction::Gate(Gate { name: "X".into(), parameters: vec![], qubits: fixed(&[0, 1]), modifiers: vec![GateModifier::Controlled] }), plain("X", vec![], &[1])], 2);
+    progu_case(ctx, vec![Instruction::Gate(Gate { name: "RZ".into(), parameters: vec![real(0.7)], qubits: fixed(&[2]), modifiers: vec![GateModifier::Dagger] }), plain("RZ", vec![real(0.7)], &[2])], 3);
+    progu_case(ctx, vec![Instruction::Gate(Gate { name: "RX".into(), parameters: vec![real(0.1), real(0.2)], qubits: fixed(&[0, 1]), modifiers: vec![GateModifier::Forked] }), plain("RX", vec![real(0.2)], &[1])], 2);
     progu_case(ctx, vec![plain("RZ", vec![real(2.0 * std::f64::consts::PI)], &[0])], 1);
     progu_case(ctx, vec![plain("RX", vec![real(-2.0 * std::f64::consts::PI)], &[1])], 2);
     progu_case(ctx, vec![Instruction::Gate(parse_gate("RY", "2*pi", &[0]))], 1);
@@ -222,6 +223,47 @@ fn run(ctx: &mut Ctx) {
                     );
                 }
             }
+        }
+    }
+
+    // ---- 7. every standard gate THROUGH Program::to_unitary next to gates of every kind: a modified gate whose
+    // consumed form is exactly the gate under test immediately before it / two positions before it; the gate
+    // repeated; HALT / NOP around it
+    let mut rng = ctx.rng(19);
+    use GateModifier::*;
+    let stacks: [&[GateModifier]; 6] = [&[Dagger], &[Controlled], &[Forked], &[Dagger, Controlled], &[Controlled, Dagger], &[Forked, Dagger]];
+    for (name, k, np) in STANDARD_GATES {
+        let base_params: Vec<Expression> = (0..np).map(|i| real(angle(&mut rng, 12 + i))).collect();
+        for stack in stacks {
+            let extra = stack.iter().filter(|m| !matches!(m, Dagger)).count();
+            let n = (k + extra) as u64 + if rng.chance(1, 3) && k + extra < 4 { 1 } else { 0 };
+            let qs = random_placement(&mut rng, k + extra, n);
+            let (ex, bq) = qs.split_at(extra);
+            let prefix = modified_raw(&mut rng, stack, name, &base_params, ex, bq);
+            let s_gate = || plain(name, base_params.clone(), bq);
+            progu_case(ctx, vec![Instruction::Gate(prefix.clone()), s_gate()], n);
+            progu_case(ctx, vec![Instruction::Gate(prefix.clone()), plain("H", vec![], &[bq[0]]), s_gate()], n);
+            if matches!(stack, [Dagger]) {
+                progu_case(ctx, vec![s_gate(), Instruction::Gate(prefix), s_gate()], n);
+            }
+        }
+        // repeated identical gates, HALT / NOP around the gate
+        let n = k as u64;
+        let qs = random_placement(&mut rng, k, n);
+        let s_gate = || plain(name, base_params.clone(), &qs);
+        progu_case(ctx, vec![s_gate(), s_gate()], n);
+        progu_case(ctx, vec![s_gate(), plain("X", vec![], &[qs[0]]), s_gate(), s_gate()], n);
+        progu_case(ctx, vec![Instruction::Halt(), s_gate(), Instruction::Halt()], n);
+        progu_case(ctx, vec![s_gate(), Instruction::Nop(), s_gate()], n);
+    }
+    // ---- 8. parameters that only become numbers after simplification, integer-valued, huge and tiny (Quil text)
+    for (name, k) in PARAM_GATES {
+        for text in EXPR_TEXTS {
+            let n = k as u64 + rng.below(2);
+            let qs = random_placement(&mut rng, k, n);
+            let g = parse_gate(name, text, &qs);
+            gate_case(ctx, name, g.parameters.clone(), g.qubits.clone(), n);
+            progu_case(ctx, vec![Instruction::Gate(g.clone()), Instruction::Gate(g)], n);
         }
     }
 }
